@@ -391,7 +391,11 @@ impl<'a> P<'a> {
                     self.i += 1;
                 }
                 if self.i == st {
-                    return uns("non-decimal literal without digits");
+                    if matches!(self.peek(), Some(b'+') | Some(b'-')) {
+                        return uns("sign in a non-decimal literal");
+                    }
+                    // not one of the listed violation classes, but there is no value it could denote
+                    return Err(Verdict::MustNotAccept("non-decimal literal without digits"));
                 }
                 if overflow {
                     return Err(Verdict::MustNotAccept("non-decimal literal above 64 bits"));
